@@ -99,6 +99,11 @@ Section OnePayload.
   (* From<T>: no raw; deref_mut: clear_raw() then hand out &mut inner *)
   Definition keepraw_from (x : T) : list Z * T := ([], x).
   Definition keepraw_deref_mut_set (k : list Z * T) (x' : T) : list Z * T := ([], x').
+  (* to_owned(): raw = Cow::Owned(self.raw.into_owned()) -- the same bytes, detached from the input
+     buffer; Clone: field-wise. Whether the buffer is borrowed or owned is not observable by
+     encode (it tests raw_cbor().is_empty() only), so both are the identity on (raw, inner). *)
+  Definition keepraw_to_owned (k : list Z * T) : list Z * T := (fst k, snd k).
+  Definition keepraw_clone (k : list Z * T) : list Z * T := (fst k, snd k).
 
   (* Vec<T> *)
   Definition dec_vec : decoder (list T) := d_vec dec.
